@@ -169,23 +169,20 @@ struct choice_ghost {
 	unsigned int applies;
 };
 static struct choice_ghost g_ch;
-static struct pdu_ipv4 g_buf4[2];
-static struct pdu_ipv6 g_buf6[2];
-static struct pdu_router_key g_bufk[2];
 
 static int rtr_store_prefix_pdu__choice(struct rtr_socket *rtr_socket, const void *pdu, const unsigned int pdu_size, void **ary, unsigned int *ind, unsigned int *size)
 __CPROVER_requires(__CPROVER_rw_ok(ary, sizeof(*ary)) && __CPROVER_rw_ok(ind, sizeof(*ind)) && __CPROVER_rw_ok(size, sizeof(*size)) && *ind < 2)
 __CPROVER_requires(pdu_size == sizeof(struct pdu_ipv4) || pdu_size == sizeof(struct pdu_ipv6))
 __CPROVER_ensures(__CPROVER_return_value == RTR_SUCCESS || __CPROVER_return_value == RTR_ERROR)
 __CPROVER_ensures(__CPROVER_return_value == RTR_SUCCESS
-			  ? (*ind == __CPROVER_old(*ind) + 1 && *ary == (pdu_size == sizeof(struct pdu_ipv4) ? (void *)g_buf4 : (void *)g_buf6))
+			  ? (*ind == __CPROVER_old(*ind) + 1 && __CPROVER_is_fresh(*ary, 2 * sizeof(struct pdu_ipv6)))
 			  : (*ind == __CPROVER_old(*ind) && *ary == __CPROVER_old(*ary) && *size == __CPROVER_old(*size)))
 __CPROVER_assigns(*ary, *ind, *size);
 
 static int rtr_store_router_key_pdu__choice(struct rtr_socket *rtr_socket, const void *pdu, const unsigned int pdu_size, struct pdu_router_key **ary, unsigned int *ind, unsigned int *size)
 __CPROVER_requires(__CPROVER_rw_ok(ary, sizeof(*ary)) && __CPROVER_rw_ok(ind, sizeof(*ind)) && __CPROVER_rw_ok(size, sizeof(*size)) && *ind < 2)
 __CPROVER_ensures(__CPROVER_return_value == RTR_SUCCESS || __CPROVER_return_value == RTR_ERROR)
-__CPROVER_ensures(__CPROVER_return_value == RTR_SUCCESS ? (*ind == __CPROVER_old(*ind) + 1 && *ary == g_bufk)
+__CPROVER_ensures(__CPROVER_return_value == RTR_SUCCESS ? (*ind == __CPROVER_old(*ind) + 1 && __CPROVER_is_fresh(*ary, 2 * sizeof(struct pdu_router_key)))
 							: (*ind == __CPROVER_old(*ind) && *ary == __CPROVER_old(*ary) && *size == __CPROVER_old(*size)))
 __CPROVER_assigns(*ary, *ind, *size);
 
@@ -478,8 +475,7 @@ void h_store(void)
 		CANARY("successful delta with one record reachable");
 	if (r == -1 && g_ch.applies == 1)
 		CANARY("failed apply reachable");
-	return;
-#endif
+#else
 
 	/* ---- unit sanity */
 	CHECK(!g_gt.bad_table, "table operations address the socket's live tables or the shadow tables only");
@@ -566,4 +562,5 @@ void h_store(void)
 	if (r == 0 && nkeys == 1)
 		CANARY("router key applied reachable");
 #endif
+#endif /* STORE_CHOICE */
 }
